@@ -1222,6 +1222,9 @@ def _sweep_cases(thorough, fit_name):
     if _FITTER_MODEL[fit_name] != 'ModelInterpolate':
         add('sizes,single-basis-rdm', k=1, size='k=1')
         add('sizes,single-basis-rdm', k=1, size='k=1', pidx=[0, 0, 2, 3, 4], n_all=5)
+        # the only basis RDM is negatively aligned with the training data: weight -1, or 0 for the non-negative fitters
+        add('sizes,single-basis-rdm', k=1, size='k=1', kind='negaligned', method='corr')
+        add('sizes,single-basis-rdm', k=1, size='k=1', kind='negaligned', method='corr', n_all=5, pidx=[3, 0, 1, 1, 4])
     add('sizes,3-conditions', n_all=3, k=2, size='n=3')
     add('sizes,3-conditions', n_all=5, k=2, pidx=[4, 0, 2], size='n=3')
     add('sizes,3-conditions', n_all=4, k=2, pidx=[3, 1, 1, 0], size='n=3+1')
